@@ -5,6 +5,7 @@
 (* choices), the first n axes being the restricted states.                                       *)
 From Coq Require Import Sorted.
 From LCM Require Import Base.Prelude Base.Arr Base.ArrOps Model.StateSpace Proofs.C17_StateSpace.
+From LCM Require Import Spec.Lang Spec.Bellman Spec.Layout Proofs.Refine_StateSpace.
 Local Open Scope nat_scope.
 
 (* exactly the passing combinations, in row-major order, without duplicates *)
@@ -66,6 +67,23 @@ Theorem C17_state_indexer : forall mask n pos,
        (feasible_states mask n) [] = si).
 Proof. exact indexer_is_rank_or_fill. Qed.
 Print Assumptions C17_state_indexer.
+
+(* refinement: on the filter mask of a model (filters evaluated on the product of the restricted
+   grids in canonical order) the array model stores exactly the combinations, and keeps exactly
+   the restricted states, of the implementation-independent specification Spec/Layout.v — in the
+   same order *)
+Theorem C17_stored_combinations_refine_the_specification : forall m p t,
+  stored_combinations m p t
+  = map (as_ienv (restricted_vars m)) (true_positions (filter_mask m p t)).
+Proof. exact stored_combinations_refined. Qed.
+Print Assumptions C17_stored_combinations_refine_the_specification.
+
+Theorem C17_remaining_states_refine_the_specification : forall m p t,
+  NoDup (map fst (restricted_states m ++ restricted_choices m)) ->
+  remaining_states m p t
+  = map (as_ienv (restricted_states m)) (feasible_states (filter_mask m p t) (length (restricted_states m))).
+Proof. exact remaining_states_refined. Qed.
+Print Assumptions C17_remaining_states_refine_the_specification.
 
 Example C17_nonvacuous :
   let mask := mkArr [3; 2] [false; false; true; false; true; true] in
